@@ -193,6 +193,9 @@ func RunCompose() {
 func RunFnStep() {
 	o := genOpts()
 	o.TextLen = 1
+	if nd.Tier() > 0 {
+		o.MaxEvents, o.Attrs = 5, 1
+	}
 	b := hx.Gen(o)
 	nd.Assert(b.TieOK, "store-mirrors-script")
 	nd.Reach("fn-step")
